@@ -23,7 +23,7 @@ import json
 import math
 from fractions import Fraction
 
-from harness.core import Ctx, VERIF, cbool, clist, cnat, copt, cq, guarded, pmap
+from harness.core import COQ, Ctx, VERIF, cbool, clist, cnat, copt, cq, guarded, pmap
 from harness.props import C04_port as PORT
 
 ID = "C04"
@@ -156,6 +156,89 @@ def gen_nontrivial(rng, big=False):
         inst = gen_instance(rng, big)
         if not (root_is_trivial(inst) and rng.random() < 0.67):
             return inst
+
+
+def _root_lp(inst):
+    return PORT.solve_lp([F(v) for v in inst["c"]], [[F(v) for v in r] for r in inst["A"]], [F(v) for v in inst["b"]],
+                         inst["minimize"], F(1, 10**6), 10000)
+
+
+def gen_bindet(rng):
+    """'binary-detection adversaries': mixed instances whose explicit unit-bound rows x_j <= 1 sit on an arbitrary set U of
+    variables (integer AND continuous; |U| = #integers with a different set, |U| = #integers - 1, U = integers, supersets,
+    arbitrary), written as x_j <= 1 or 2 x_j <= 2, sometimes duplicated; the other variables have boxes up to 5; a coupling row
+    x_i + K x_d <= K with a dearer driver d keeps the target integer x_i small in the relaxation while integer points reach
+    x_i = K >= 2; a row k x_f <= k-1 makes the relaxation fractional.  Redrawn until the exact root relaxation has every
+    integer variable in [0,1] and at least one fractional (the situation in which _detect_binary decides)."""
+    last = None
+    for _ in range(60):
+        n = rng.choice([2, 3, 3, 4, 4])
+        allv = list(range(n))
+        if rng.random() < 0.75 and n >= 2:
+            ints = sorted(rng.sample(allv, rng.randint(1, n - 1)))        # mixed
+        else:
+            ints = allv[:] if rng.random() < 0.5 else sorted(rng.sample(allv, rng.randint(1, n)))
+        cont = [j for j in allv if j not in ints]
+        mode = rng.choice(["same_count", "same_count", "one_less", "exact", "arbitrary", "superset", "none"])
+        if mode == "same_count" and cont:
+            swap = rng.randint(1, min(len(cont), len(ints)))
+            U = set(rng.sample(ints, len(ints) - swap)) | set(rng.sample(cont, swap))
+        elif mode == "one_less":
+            U = set(rng.sample(allv, max(0, len(ints) - 1))) if rng.random() < 0.5 else set(rng.sample(ints, len(ints) - 1))
+        elif mode == "exact":
+            U = set(ints)
+        elif mode == "superset":
+            U = set(ints) | set(rng.sample(cont, rng.randint(0, len(cont))))
+        elif mode == "none":
+            U = set()
+        else:
+            U = set(rng.sample(allv, rng.randint(0, n)))
+        u = [1 if j in U else rng.randint(2, 5) for j in allv]
+        rows = []
+        for j in allv:
+            e = [1 if t == j else 0 for t in allv]
+            if j in U:
+                form = rng.random()
+                if form < 0.25:
+                    rows.append(([2 * v for v in e], 2))
+                else:
+                    rows.append((e, 1))
+                if rng.random() < 0.2:
+                    rows.append((list(e), 1))                              # duplicated unit row
+            elif j in ints or rng.random() < 0.8:
+                rows.append((e, u[j]))
+        free_ints = [j for j in ints if j not in U]
+        i = rng.choice(free_ints) if free_ints and rng.random() < 0.85 else rng.choice(ints)
+        others = [j for j in allv if j != i]
+        d = rng.choice(others)
+        K = rng.randint(2, max(2, min(u[i], 3)))
+        r = [0] * n
+        r[i], r[d] = 1, K
+        rows.append((r, K))
+        f = d if rng.random() < 0.6 else rng.choice(ints)
+        k = rng.choice([2, 3, 3])
+        r = [0] * n
+        r[f] = k
+        rows.append((r, k - 1))
+        if rng.random() < 0.4:
+            g = rng.choice(allv)
+            r = [rng.choice([0, 1, 1, 2]) for _ in allv]
+            r[g] = max(r[g], 1)
+            rows.append((r, sum(a * uu for a, uu in zip(r, u)) - rng.randint(0, 2)))
+        c = [rng.choice([0, 0, 1, 2]) for _ in allv]
+        c[i] = rng.randint(1, 3)
+        c[d] = c[i] * K + rng.randint(1, 2)
+        minimize = rng.random() < 0.5
+        if minimize:
+            c = [-v for v in c]
+        rng.shuffle(rows)
+        inst = {"c": c, "A": [list(a) for a, _ in rows], "b": [bb for _, bb in rows], "ints": ints, "minimize": minimize,
+                "family": "bindet:" + mode, "x0": [0] * n}
+        last = inst
+        st, x, _, _ = _root_lp(inst)
+        if st == "OPTIMAL" and all(0 <= x[j] <= 1 for j in ints) and any(x[j].denominator != 1 for j in ints):
+            return inst
+    return last
 
 
 def gen_variants(rng, inst, k):
@@ -697,11 +780,13 @@ def _norm_var(v):
 def run(ctx: Ctx):
     ctx.rule = ("integer MILPs: n<=4 variables, m<=4 rows (+ explicit box rows x_j<=u_j, u<=5; a continuous variable may be left "
                 "unboxed in the 'openbox' family), data -5..5, families binary / general / implicit-binary / openbox, random subset of "
-                "integer variables, min and max; each instance is run under a base option set and 4 random ones (warm start "
+                "integer variables, min and max; plus 150 'binary-detection adversaries' (unit-bound rows on arbitrary sets of integer and "
+                "continuous variables, integer optimum >= 2, root relaxation fractional inside [0,1]); each instance is run under a base option set and 4 (adversaries: 2) random ones (warm start "
                 "feasible/infeasible/wrong length/fractional/within eps, heuristics, lns_iterations 0/3, solution_limit 1..3, "
                 "max_iter default or 0..5, max_nodes default or 1..5, gap_tol 1e-6/0/0.1/0.5); non-trivial = the run explored >= 2 "
                 "B&B nodes or used an incumbent from warm start/rounding/LNS; distinct = canonical JSON of (instance, options)")
     ctx.proof_step(["C04"])
+    if (COQ / "Props" / "C04_deep.v").exists(): ctx.proof_step(["C04"], props_file="Props/C04_deep.v")
     ctx.notes += [
         "floats are idealised as exact rationals (model in Q, eps = gap_tol = 1e-6 as in the code); discrete outputs compared exactly, "
         "values within 1e-7 relative; runs where a comparison of the model is an exact tie / within 1e-7 of its threshold are "
@@ -730,12 +815,17 @@ def run(ctx: Ctx):
     for _ in range(n_inst):
         inst = gen_nontrivial(ctx.rng, big)
         items.append((inst, gen_variants(ctx.rng, inst, 4)))
+    for _ in range(ctx.budget(150, 1500)):
+        inst = gen_bindet(ctx.rng)
+        items.append((inst, gen_variants(ctx.rng, inst, 2)))
     results = pmap(_work, items, chunksize=2)
 
     coq_cases, metas = [], []
     spec_cases, spec_metas, gate_cases, gate_metas = [], [], [], []
     for (inst, variants), (tr, outs, verdicts, ports, grp) in zip(items, results):
         ctx.count("family", inst.get("family", "?"))
+        if inst.get("family", "").startswith("bindet") and tr[0] == "OPT":
+            ctx.count("bindet_optimum_needs_int_ge_2", any(tr[2][j] >= 2 for j in inst["ints"]))
         ctx.count("exact_verdict", tr[0])
         ctx.count("n_vars", len(inst["c"]))
         ctx.count("n_int", len(inst["ints"]))
